@@ -8,7 +8,7 @@ namespace KrakenModel.Retry.FairEx
 def cfg : Config := { capIn := 1, capRe := 1, nIn := 1, nRe := 1, retryInterval := 1 }
 
 /-- task 1 was added, executed and failed: stored, failed, last attempt now -/
-def s0 : State := [Op.addBegin 1 0, .addEnq 1, .take .inc, .finish 1 false].foldl step (init cfg)
+def s0 : State := [Op.addBegin 1 0 [], .addEnq 1, .take .inc, .finish 1 false].foldl step (init cfg)
 
 def cycle : List Op := [.advance 1, .pollFetch, .pollMark, .pollEnq, .take .ret, .take .inc, .finish 1 true]
 
